@@ -112,31 +112,33 @@ def Term.cIn (nc : Nat) : Term → Prop
   | .const c => c < nc
   | .var _ => True
 
-structure SpecOK (P : Prog) (natoms : Nat) (ar : Pred → Nat) (rk : Nat → Nat) : Prop where
+/-- `ar p = some k`: `p` is a predicate of the program (it has a name base) and has arity `k`; `none` for every other
+    predicate number (so that `inj` is about the program's predicates only). -/
+structure SpecOK (P : Prog) (natoms : Nat) (ar : Pred → Option Nat) (rk : Nat → Nat) : Prop where
   nodup : (P.defs.map (·.1)).Nodup
   wf : WfP (inst P natoms) natoms rk
   vars : VarsOK P
-  factOK : ∀ p args ident prob, Clause.fact args ident prob ∈ P.clausesOf p → args.length = ar p ∧ inR P.nconsts args = true
+  factOK : ∀ p args ident prob, Clause.fact args ident prob ∈ P.clausesOf p → ar p = some args.length ∧ inR P.nconsts args = true
   headOK : ∀ p head n body ch, Clause.rule head n body ch ∈ P.clausesOf p →
-    head.length = ar p ∧ ∀ t ∈ head, Term.cIn P.nconsts t
+    ar p = some head.length ∧ ∀ t ∈ head, Term.cIn P.nconsts t
   bodyOK : ∀ p head n body ch, Clause.rule head n body ch ∈ P.clausesOf p → ∀ l ∈ body, ∀ b, litAtom l = some b →
-    b.args.length = ar b.pred ∧ ∀ t ∈ b.args, Term.cIn P.nconsts t
+    ar b.pred = some b.args.length ∧ ∀ t ∈ b.args, Term.cIn P.nconsts t
   /-- range restriction: every clause variable occurs in a positive body literal -/
   rr : ∀ p head n body ch, Clause.rule head n body ch ∈ P.clausesOf p → ∀ i, i < n →
     ∃ b, Lit.pos b ∈ body ∧ Term.var i ∈ b.args
-  inj : ∀ p a p' a', a.length = ar p → a'.length = ar p' → inR P.nconsts a = true → inR P.nconsts a' = true →
+  inj : ∀ p a p' a', ar p = some a.length → ar p' = some a'.length → inR P.nconsts a = true → inR P.nconsts a' = true →
     P.atomName p a = P.atomName p' a' → p = p' ∧ a = a'
-  bound : ∀ p a, a.length = ar p → inR P.nconsts a = true → P.atomName p a < natoms
+  bound : ∀ p a, ar p = some a.length → inR P.nconsts a = true → P.atomName p a < natoms
 
 section
-variable {P : Prog} {natoms : Nat} {ar : Pred → Nat} {rk : Nat → Nat}
+variable {P : Prog} {natoms : Nat} {ar : Pred → Option Nat} {rk : Nat → Nat}
 
 /-- truth of the atom with id `a` in the instantiation -/
 def Tspec (P : Prog) (natoms : Nat) (chosen : Array Bool) (a : Nat) : Bool :=
   getB (wfm (toSem (inst P natoms)) chosen natoms).1 a
 
-def Mspec (P : Prog) (natoms : Nat) (ar : Pred → Nat) (chosen : Array Bool) : Model :=
-  fun p a => (a.length == ar p) && inR P.nconsts a && Tspec P natoms chosen (P.atomName p a)
+def Mspec (P : Prog) (natoms : Nat) (ar : Pred → Option Nat) (chosen : Array Bool) : Model :=
+  fun p a => (ar p == some a.length) && inR P.nconsts a && Tspec P natoms chosen (P.atomName p a)
 
 theorem inR_ground {nc : Nat} {θ : List Const} (hθ : inR nc θ = true) {n : Nat} (hl : θ.length = n)
     (ts : List Term) (hc : ∀ t ∈ ts, Term.cIn nc t) (hv : ∀ t ∈ ts, Term.inRange n t) :
@@ -274,7 +276,7 @@ theorem mspec_isModelFO (hs : SpecOK P natoms ar rk) (chosen : Array Bool) :
       obtain ⟨hhl, hhc⟩ := hs.headOK p head n body ch hc
       have hhv := (hs.vars p _ hc head n body ch rfl).1
       have hinh := inR_ground hθr hθl head hhc hhv
-      have hlen : (head.map (Term.ground θ)).length = ar p := by simp [hhl]
+      have hlen : ar p = some (head.map (Term.ground θ)).length := by simp [hhl]
       have hid := hs.bound p _ hlen hinh
       simp only [Mspec, hlen, hinh, beq_self_eq_true, Bool.true_and]
       rw [hIM (P.atomName p _), List.any_eq_true]
